@@ -129,6 +129,7 @@ type c04Emit struct {
 	method string
 	val    *c03V
 	path   []*types.Var // field path of the encoded value below the receiver (nil: not a field of the receiver)
+	elem   bool         // the value is one element of the list field at path
 	tmpl   *c04Name     // EncodeElement: the name of the start element given
 	open   []c04Name    // elements open at this point, outermost first
 }
@@ -196,6 +197,17 @@ func c04ResolveName(x *c03Interp, st *c03State, root *c04Root, tok *c03V) c04Nam
 func c04RecvPath(root *c04Root, v *c03V) ([]*types.Var, bool) {
 	if v != nil && v.IsInit("param") && v.Root.Obj == root.recv {
 		return v.Path, true
+	}
+	return nil, false
+}
+
+// c04RecvElemPath: v is an element of the list field path of the receiver (a loop that encodes a list item by item
+// writes the same elements, under the same names, as encoding the list).
+func c04RecvElemPath(root *c04Root, v *c03V) ([]*types.Var, bool) {
+	if v != nil && v.IsInit("elem") && len(v.Path) == 0 && v.Root.Of != nil {
+		if p, ok := c04RecvPath(root, v.Root.Of); ok && len(p) > 0 {
+			return p, true
+		}
 	}
 	return nil, false
 }
@@ -268,6 +280,8 @@ func c04Run(p *core.Program, root *c04Root, z c04Zero, tag string) ([]*c04Trace,
 				em := c04Emit{ev: e, method: e.Fn.Name(), val: e.Args[0], open: append([]c04Name{}, open...)}
 				if pth, ok := c04RecvPath(root, e.Args[0]); ok && len(pth) > 0 {
 					em.path = pth
+				} else if pth, ok := c04RecvElemPath(root, e.Args[0]); ok {
+					em.path, em.elem = pth, true
 				}
 				if em.method == "EncodeElement" && len(e.Args) == 2 {
 					n := c04ResolveName(x, pa.St, root, e.Args[1])
